@@ -52,6 +52,18 @@ def origins_for(cfg, rng):
         out.append(("extended", o + ":444"))
         out.append(("extended", o + ".evil.example"))
         out.append(("extended", "x" + o))
+        # spellings a URL library would call "the same origin": the property asks for exact equality with a configured value
+        dp = ":443" if o.startswith("https://") else (":80" if o.startswith("http://") else ":0")
+        out.append(("equivalent-spelling", o + dp))
+        out.append(("equivalent-spelling", o.replace("://", "://user@", 1)))
+        out.append(("equivalent-spelling", o.replace("://", "://www.", 1)))
+        out.append(("equivalent-spelling", o.replace("https://", "http://", 1) if o.startswith("https://") else o.replace("http://", "https://", 1)))
+        out.append(("equivalent-spelling", o.split("://", 1)[0].upper() + "://" + o.split("://", 1)[-1] if "://" in o else o.swapcase()))
+        out.append(("equivalent-spelling", o + "?"))
+        out.append(("equivalent-spelling", o + "#"))
+        out.append(("equivalent-spelling", o.replace(".", "%2E", 1)))
+        if o.rsplit(":", 1)[-1].isdigit():
+            out.append(("equivalent-spelling", o.rsplit(":", 1)[0]))
     if len(cfg["origins"]) >= 2:
         out.append(("joined-list", cfg["origins"][0] + "," + cfg["origins"][1]))
         out.append(("joined-list", ",".join(cfg["origins"])))
